@@ -165,6 +165,7 @@ def read_seq_lock_span(src, fname, impl, lock_re, send_re):
 def read_thread_producers(src):
     """every `self.sender.send(X.clone())` of continuities.rs, with the log append and the sidecar append of X"""
     sites = []
+    spans = []
     for m in re.finditer(r"self\.sender\.send\(\s*(\w+)\.clone\(\)\s*\)", src):
         var = m.group(1)
         f = enclosing_fn(src, m.start())
@@ -177,6 +178,18 @@ def read_thread_producers(src):
         cache = [x.start() for x in re.finditer(r"self\.stream_cache\s*\.append_best_effort\(\s*&" + var + r"\s*\)", body)]
         if len(logs) != 1 or len(cache) != 1:
             return None, f"{name}: publish of `{var}` with {len(logs)} log appends and {len(cache)} sidecar appends of it (expected 1 and 1)"
+        # the seq mutex must be held from choosing the seq to the publish: a top-level `let mut g = self.next_seq.lock()..`
+        # before the log append that is not dropped before the publish, or the caller holds it (`next_seq: &mut HashMap`)
+        sig = src[max(0, b0 - 600):b0]
+        sig = sig[sig.rfind("fn " + name):]
+        held_by_caller = bool(re.search(r"next_seq\s*:\s*&mut\s+HashMap", sig))
+        gm = [x for x in re.finditer(r"let\s+mut\s+(\w+)\s*=\s*self\.next_seq\s*\.lock\(\)[^;]*;", body) if x.start() < logs[0]]
+        if held_by_caller:
+            spans.append((name, "SpanEmit"))
+        elif len(gm) == 1 and depth_at(body, gm[0].start()) == 0 and not re.search(r"\bdrop\(\s*" + gm[0].group(1) + r"\s*\)", body[:p]):
+            spans.append((name, "SpanEmit"))
+        else:
+            spans.append((name, "SpanCounter"))
         sites.append((name, order_of(p, [logs[0], cache[0]])))
     if not sites:
         return None, "no `self.sender.send(..)` in continuities.rs"
@@ -184,7 +197,8 @@ def read_thread_producers(src):
     if len(re.findall(r"\bsender\s*\.send\(", src)) != len(sites):
         return None, "a publish on the continuity channel that is not `self.sender.send(x.clone())`"
     order = "RecThenPub" if all(o == "RecThenPub" for _, o in sites) else "PubThenRec"
-    return {"order": order, "sites": sites}, None
+    span = "SpanEmit" if all(sp == "SpanEmit" for _, sp in spans) else "SpanCounter"
+    return {"order": order, "sites": sites, "site_spans": spans, "thread_span": span}, None
 
 
 # ----------------------------------------------------------------- handlers
@@ -300,8 +314,12 @@ def extract(repo):
                 notes.append(f"session: concurrency construct(s) {sorted(set(conc))} in session.rs: single-producer claim not readable")
                 span = "SpanCounter"
             span_note = "one sequential producer (no spawn/join/select in session.rs; seq is a &mut u64 in run_session)"
+        elif name == "thread" and prod is not None:
+            span = prod["thread_span"]
+            narrowed = [n for n, sp in prod["site_spans"] if sp != "SpanEmit"]
+            span_note = "next_seq guard bound at the top level before the log append and alive at the publish in every append" + (f"; NOT in {narrowed}" if narrowed else "")
         elif name == "thread":
-            span_note = "next_seq mutex held from choose to publish in every append (C01's obligation)"
+            span_note = "unreadable"
         if prod is not None:
             prod["span"] = span
             prod["span_note"] = span_note
@@ -421,6 +439,11 @@ def selftest():
     i, _ = read_thread_producers(t_ok)
     j, _ = read_thread_producers(t_bad)
     assert i and i["order"] == "RecThenPub" and j and j["order"] == "PubThenRec", (i, j)
+    assert i["thread_span"] == "SpanCounter", i   # no next_seq guard at all in the toy
+    t_lock = "impl S { fn append_x(&self) { let mut next_seq = self.next_seq.lock().expect(\"m\"); self.event_log.append(&event).map_err(|e| e)?; self.stream_cache.append_best_effort(&event); let _ = self.sender.send(event.clone()); next_seq.insert(k, 1); } }"
+    t_narrow = "impl S { fn append_x(&self) { let seq = { let mut next_seq = self.next_seq.lock().expect(\"m\"); 1 }; self.event_log.append(&event).map_err(|e| e)?; self.stream_cache.append_best_effort(&event); let _ = self.sender.send(event.clone()); } }"
+    assert read_thread_producers(t_lock)[0]["thread_span"] == "SpanEmit"
+    assert read_thread_producers(t_narrow)[0]["thread_span"] == "SpanCounter"
     emit_whole = "impl TaskEmitter { async fn emit(&self, kind: EventKind) { let mut seq = self.seq.lock().await; let event = Event { seq: *seq, kind }; *seq += 1; let mut guard = self.events.lock().await; guard.push(event.clone()); let _ = self.sender.send(event.clone()); } }"
     emit_narrow = "impl TaskEmitter { async fn emit(&self, kind: EventKind) { let seq = { let mut next = self.seq.lock().await; let seq = *next; *next += 1; seq }; let event = Event { seq, kind }; let mut guard = self.events.lock().await; guard.push(event.clone()); let _ = self.sender.send(event.clone()); } }"
     emit_drop = emit_whole.replace("*seq += 1;", "*seq += 1; drop(seq);")
